@@ -638,7 +638,7 @@ def units(tier, seed):
     for W, H, sp in EXACT:
         us.append(Unit('lattice_exact_%gx%g' % (W, H), make_exact_fn(W, H, sp), make_exact_replay(W, H, sp), setup, F,
                        'lot %g x %g m at the origin, rotation 0, spacing each of the exact divisors %s (forked)' % (W, H, sp), AS))
-    sweeps = [(-90.0, 0.0, 15.0), (-30.0, 30.0, 7.5), (0.0, 45.0, 15.0)] if tier == 'quick' else [(-90.0, 0.0, 15.0), (-30.0, 30.0, 7.5), (-90.0, 90.0, 15.0), (0.0, 10.0, 1.0), (-45.0, 45.0, 10.0)]
+    sweeps = [(-90.0, 0.0, 15.0), (-30.0, 30.0, 7.5), (0.0, 45.0, 15.0)] if tier == 'quick' else [(-90.0, 0.0, 15.0), (-30.0, 30.0, 7.5), (-90.0, 90.0, 20.0), (0.0, 10.0, 1.0), (-45.0, 45.0, 10.0)]
     for a, b, st in sweeps:
         for which in ('fr', 'wp'):
             us.append(Unit('sweep_%s_%g_%g_%g' % (which, a, b, st), make_opt_fn(which, a, b, st), make_opt_replay(which, a, b, st), setup, F2,
